@@ -19,7 +19,9 @@ CONSTANTS MaxOrder,      \* orders 2..MaxOrder
           MaxSize,       \* dense entries
           MaxCore,       \* product of the Tucker ranks / of the ring ranks
           MaxP2J,        \* longest PARAFAC2 slice
-          MaxDim4        \* mode sizes of the order-4 shapes (keeps the quick tier small)
+          MaxDim4,       \* mode sizes of the order-4 shapes (keeps the quick tier small)
+          MaxRank4,      \* ranks of the order-4 configurations (1..MaxRank4)
+          MaxBadSize     \* the invalid family is built on the shapes with at most this many entries
 
 \* ---------------------------------------------------------------------------- arithmetic helpers
 FSum(n, f(_))  == LET S[k \in 0..n] == IF k = 0 THEN 0 ELSE S[k - 1] + f(k) IN S[n]
@@ -32,11 +34,14 @@ E3(T, a, i, b)    == T.data[(a * T.shape[2] + i) * T.shape[3] + b + 1]
 E4(T, a, i, j, b) == T.data[((a * T.shape[2] + i) * T.shape[3] + j) * T.shape[4] + b + 1]
 
 \* a well-formed integer tensor of the given order (guards every index computation below)
+\* (a mode of size 0 is a well-formed array -- it occurs in the invalid family as "rank 0" -- but never valid)
 IsT(T, order) == /\ Len(T.shape) = order
-                 /\ \A k \in 1..order : T.shape[k] \in Nat /\ T.shape[k] >= 1
+                 /\ \A k \in 1..order : T.shape[k] \in Nat
                  /\ Len(T.data) = Size(T.shape)
                  /\ \A n \in 1..Len(T.data) : T.data[n] \in Int
 IsTAny(T) == IsT(T, Len(T.shape))
+PosT(T)  == \A k \in 1..Len(T.shape) : T.shape[k] >= 1
+PosAll(ts) == \A k \in 1..Len(ts) : PosT(ts[k])
 
 \* ---------------------------------------------------------------------------- views of a dense tensor
 \* mode-m unfolding (Kolda/tensorly layout: mode m first, the others in increasing order, row major)
@@ -64,7 +69,7 @@ CPShape(in) == [k \in 1..Len(in.fs) |-> in.fs[k].shape[1]]
 Wt(in, r)   == IF in.hasw THEN in.w[r] ELSE 1
 CPFactorsOK(in) == /\ Len(in.fs) >= 1 /\ \A k \in 1..Len(in.fs) : IsT(in.fs[k], 2)
 CPRanksMatch(in) == \A k \in 1..Len(in.fs) : in.fs[k].shape[2] = CPRank(in)
-ValidCP(in) == /\ CPFactorsOK(in) /\ CPRanksMatch(in)
+ValidCP(in) == /\ CPFactorsOK(in) /\ PosAll(in.fs) /\ CPRanksMatch(in)
                /\ (in.hasw => Len(in.w) = CPRank(in) /\ \A r \in 1..Len(in.w) : in.w[r] \in Int)
 CPDense(in) ==
     Build(CPShape(in), LAMBDA idx :
@@ -96,7 +101,7 @@ TuckerShape(in) == [k \in 1..Len(in.fs) |-> in.fs[k].shape[1]]
 TuckerRank(in)  == in.core.shape
 TuckerPartsOK(in) == /\ IsTAny(in.core) /\ Len(in.fs) >= 1 /\ \A k \in 1..Len(in.fs) : IsT(in.fs[k], 2)
 TuckerRanksMatch(in) == \A k \in 1..Len(in.fs) : in.fs[k].shape[2] = in.core.shape[k]
-ValidTucker(in) == /\ TuckerPartsOK(in) /\ Len(in.fs) = Len(in.core.shape) /\ Len(in.fs) >= 2
+ValidTucker(in) == /\ TuckerPartsOK(in) /\ PosAll(in.fs) /\ PosT(in.core) /\ Len(in.fs) = Len(in.core.shape) /\ Len(in.fs) >= 2
                    /\ TuckerRanksMatch(in)
 TuckerDense(in) ==
     LET N == Len(in.fs) IN
@@ -121,8 +126,8 @@ CoresOK(in, order) == /\ Len(in.fs) >= 1 /\ \A k \in 1..Len(in.fs) : IsT(in.fs[k
 ChainMatch(in, order) == \A k \in 1..(Len(in.fs) - 1) : in.fs[k].shape[order] = in.fs[k + 1].shape[1]
 Boundary1(in, order)  == in.fs[1].shape[1] = 1 /\ in.fs[Len(in.fs)].shape[order] = 1
 RingClosed(in)        == in.fs[1].shape[1] = in.fs[Len(in.fs)].shape[3]
-ValidTT(in) == CoresOK(in, 3) /\ ChainMatch(in, 3) /\ Boundary1(in, 3)
-ValidTR(in) == CoresOK(in, 3) /\ Len(in.fs) >= 2 /\ ChainMatch(in, 3) /\ RingClosed(in)
+ValidTT(in) == CoresOK(in, 3) /\ PosAll(in.fs) /\ ChainMatch(in, 3) /\ Boundary1(in, 3)
+ValidTR(in) == CoresOK(in, 3) /\ PosAll(in.fs) /\ Len(in.fs) >= 2 /\ ChainMatch(in, 3) /\ RingClosed(in)
 
 \* TT: left-to-right product of the slices G_k[:, i_k, :], starting from the 1-vector (1)
 TTDense(in) ==
@@ -148,7 +153,7 @@ TTMShape(in) == LET d == Len(in.fs) IN
                 [k \in 1..(2 * d) |-> IF k <= d THEN in.fs[k].shape[2] ELSE in.fs[k - d].shape[3]]
 TTMRank(in)  == LET d == Len(in.fs) IN
                 [k \in 1..(d + 1) |-> IF k <= d THEN in.fs[k].shape[1] ELSE in.fs[d].shape[4]]
-ValidTTM(in) == CoresOK(in, 4) /\ ChainMatch(in, 4) /\ Boundary1(in, 4)
+ValidTTM(in) == CoresOK(in, 4) /\ PosAll(in.fs) /\ ChainMatch(in, 4) /\ Boundary1(in, 4)
 TTMDense(in) ==
     LET d == Len(in.fs) IN
     Build(TTMShape(in), LAMBDA idx :
@@ -173,9 +178,13 @@ P2PartsOK(in) == /\ Len(in.fs) = 3 /\ \A k \in 1..3 : IsT(in.fs[k], 2)
                  /\ Len(in.ps) >= 1 /\ \A i \in 1..Len(in.ps) : IsT(in.ps[i], 2)
 P2RanksMatch(in) == /\ \A i \in 1..Len(in.ps) : in.ps[i].shape[2] = P2Rank(in)
                     /\ in.fs[2].shape[2] = P2Rank(in) /\ in.fs[3].shape[2] = P2Rank(in)
-Orthonormal(P) == \A s, t \in 0..(P.shape[2] - 1) : ColDot(P, s, t) = (IF s = t THEN 1 ELSE 0)
-P2Orthonormal(in) == \A i \in 1..Len(in.ps) : Orthonormal(in.ps[i])
-ValidP2(in) == /\ P2PartsOK(in) /\ Len(in.ps) = in.fs[1].shape[1]
+\* Projections are logged as integer numerators over the common denominator in.pden (1, or 2 for the
+\* "scaled by one half" member of the invalid family):  (P/d)^T (P/d) = I  <=>  P^T P = d^2 I.
+\* The deviation of the Gram matrix from I may have EITHER sign (a doubled column: +, a zeroed or
+\* shrunk column: -, a negated duplicate: off-diagonal -1); all of them are non-orthonormal.
+Orthonormal(P, d) == \A s, t \in 0..(P.shape[2] - 1) : ColDot(P, s, t) = (IF s = t THEN d * d ELSE 0)
+P2Orthonormal(in) == \A i \in 1..Len(in.ps) : Orthonormal(in.ps[i], in.pden)
+ValidP2(in) == /\ P2PartsOK(in) /\ PosAll(in.fs) /\ PosAll(in.ps) /\ in.pden = 1 /\ Len(in.ps) = in.fs[1].shape[1]
                /\ P2RanksMatch(in) /\ in.fs[2].shape[1] = P2Rank(in)
                /\ P2Orthonormal(in)
                /\ (in.hasw => Len(in.w) = P2Rank(in) /\ \A r \in 1..Len(in.w) : in.w[r] \in Int)
@@ -236,52 +245,52 @@ MustReject(kind, in) == MismatchedRanks(kind, in) \/ WrongBoundary(kind, in) \/ 
 Shapes == {s \in UNION {[1..n -> 1..MaxDim] : n \in 2..MaxOrder} :
               Size(s) <= MaxSize /\ (Len(s) >= 4 => \A k \in 1..Len(s) : s[k] <= MaxDim4)}
 EvenShapes == {s \in Shapes : Len(s) % 2 = 0}
-RankVecs(n) == {r \in [1..n -> 1..MaxRank] : ProdSeq(r) <= MaxCore}
+RankTop(N) == IF N >= 4 THEN MaxRank4 ELSE MaxRank          \* N = order of the tensor
+RankVecs(n) == {r \in [1..n -> 1..RankTop(n)] : ProdSeq(r) <= MaxCore}
 P2Roots == {<<I, K>> : I \in 2..3, K \in 1..MaxDim}
 
-\* one record per configuration; `bad` = "none" for the valid family, else the single perturbation
-\* applied to the shapes (at = which factor), see BuildShapes
+\* One record per configuration.  `bad` = "none" for the valid family; otherwise ONE perturbation of a
+\* valid configuration: which field (`bad`), of which factor (`at`), and in which direction (`dl` = +1:
+\* the rank / column count one too large, -1: one too small -- down to rank 0 and boundary rank 0).
+\* Both directions matter: a validator that only looks for an excess (or only for a deficit) is wrong.
+Rec(op, s, r, hw, ls) == [op |-> op, shape |-> s, rank |-> r, hasw |-> hw, lens |-> ls, bad |-> "none", at |-> 0, dl |-> 0]
+Perturb(base, names, ats, dls) ==
+    IF base.op # "p2" /\ Size(base.shape) > MaxBadSize THEN {}
+    ELSE {[base EXCEPT !.bad = b, !.at = k, !.dl = d] : b \in names, k \in ats, d \in dls}
+NonOrthNames == {"nonorth_double", "nonorth_scaled", "nonorth_skew",            \* Gram deviation > 0
+                 "nonorth_zero", "nonorth_allzero", "nonorth_negdup", "nonorth_half"}   \* Gram deviation < 0
 CfgsOf(root) ==
-    LET s == root.shape  N == Len(s)  kd == root.kind IN
+    LET s == root.shape  N == Len(s)  kd == root.kind
+        twos(n) == [q \in 1..n |-> 2] IN
     CASE kd = "cp" ->
-            {[op |-> "cp", shape |-> s, rank |-> <<r>>, hasw |-> hw, bad |-> "none", at |-> 0] :
-                 r \in 1..MaxRank, hw \in BOOLEAN}
-            \cup {[op |-> "cp", shape |-> s, rank |-> <<r>>, hasw |-> TRUE, bad |-> "fcols", at |-> k] :
-                 r \in 1..2, k \in 1..N}
-            \cup {[op |-> "cp", shape |-> s, rank |-> <<2>>, hasw |-> TRUE, bad |-> "wlen", at |-> 0]}
+            {Rec("cp", s, <<r>>, hw, <<>>) : r \in 1..MaxRank, hw \in BOOLEAN}
+            \cup UNION {Perturb(Rec("cp", s, <<r>>, TRUE, <<>>), {"fcols"}, 1..N, {1, -1}) : r \in 1..2}
+            \cup Perturb(Rec("cp", s, <<2>>, TRUE, <<>>), {"wlen"}, {0}, {1, -1})
       [] kd = "tucker" ->
-            {[op |-> "tucker", shape |-> s, rank |-> r, hasw |-> FALSE, bad |-> "none", at |-> 0] : r \in RankVecs(N)}
-            \cup {[op |-> "tucker", shape |-> s, rank |-> [q \in 1..N |-> 1 + (q % 2)], hasw |-> FALSE, bad |-> "fcols", at |-> k] :
-                 k \in 1..N}
-            \cup {[op |-> "tucker", shape |-> s, rank |-> [q \in 1..N |-> 2], hasw |-> FALSE, bad |-> "nfactors", at |-> 0]}
+            {Rec("tucker", s, r, FALSE, <<>>) : r \in RankVecs(N)}
+            \cup Perturb(Rec("tucker", s, [q \in 1..N |-> 1 + (q % 2)], FALSE, <<>>), {"fcols"}, 1..N, {1, -1})
+            \cup Perturb(Rec("tucker", s, twos(N), FALSE, <<>>), {"nfactors"}, {0}, {-1})
       [] kd = "tt" ->
-            {[op |-> "tt", shape |-> s, rank |-> <<1>> \o r \o <<1>>, hasw |-> FALSE, bad |-> "none", at |-> 0] :
-                 r \in [1..(N - 1) -> 1..MaxRank]}
-            \cup {[op |-> "tt", shape |-> s, rank |-> <<1>> \o [q \in 1..(N - 1) |-> 2] \o <<1>>, hasw |-> FALSE, bad |-> b, at |-> k] :
-                 b \in {"chain"}, k \in 1..(N - 1)}
-            \cup {[op |-> "tt", shape |-> s, rank |-> <<1>> \o [q \in 1..(N - 1) |-> 2] \o <<1>>, hasw |-> FALSE, bad |-> b, at |-> 0] :
-                 b \in {"bound_first", "bound_last"}}
+            {Rec("tt", s, <<1>> \o r \o <<1>>, FALSE, <<>>) : r \in [1..(N - 1) -> 1..RankTop(N)]}
+            \cup Perturb(Rec("tt", s, <<1>> \o twos(N - 1) \o <<1>>, FALSE, <<>>), {"chain"}, 1..(N - 1), {1, -1})
+            \cup Perturb(Rec("tt", s, <<1>> \o twos(N - 1) \o <<1>>, FALSE, <<>>), {"bound_first", "bound_last"}, {0}, {1, -1})
       [] kd = "tr" ->
-            {[op |-> "tr", shape |-> s, rank |-> r \o <<r[1]>>, hasw |-> FALSE, bad |-> "none", at |-> 0] : r \in RankVecs(N)}
-            \cup {[op |-> "tr", shape |-> s, rank |-> [q \in 1..(N + 1) |-> 2], hasw |-> FALSE, bad |-> "chain", at |-> k] :
-                 k \in 1..(N - 1)}
-            \cup {[op |-> "tr", shape |-> s, rank |-> [q \in 1..(N + 1) |-> 2], hasw |-> FALSE, bad |-> "closure", at |-> 0]}
+            {Rec("tr", s, r \o <<r[1]>>, FALSE, <<>>) : r \in RankVecs(N)}
+            \cup Perturb(Rec("tr", s, twos(N + 1), FALSE, <<>>), {"chain"}, 1..(N - 1), {1, -1})
+            \cup Perturb(Rec("tr", s, twos(N + 1), FALSE, <<>>), {"closure", "closure_first"}, {0}, {1, -1})
       [] kd = "ttm" ->
             LET d == N \div 2 IN
-            {[op |-> "ttm", shape |-> s, rank |-> <<1>> \o r \o <<1>>, hasw |-> FALSE, bad |-> "none", at |-> 0] :
-                 r \in [1..(d - 1) -> 1..MaxRank]}
-            \cup {[op |-> "ttm", shape |-> s, rank |-> <<1>> \o [q \in 1..(d - 1) |-> 2] \o <<1>>, hasw |-> FALSE, bad |-> "chain", at |-> k] :
-                 k \in 1..(d - 1)}
-            \cup {[op |-> "ttm", shape |-> s, rank |-> <<1>> \o [q \in 1..(d - 1) |-> 2] \o <<1>>, hasw |-> FALSE, bad |-> b, at |-> 0] :
-                 b \in {"bound_first", "bound_last"}}
+            {Rec("ttm", s, <<1>> \o r \o <<1>>, FALSE, <<>>) : r \in [1..(d - 1) -> 1..MaxRank]}
+            \cup Perturb(Rec("ttm", s, <<1>> \o twos(d - 1) \o <<1>>, FALSE, <<>>), {"chain"}, 1..(d - 1), {1, -1})
+            \cup Perturb(Rec("ttm", s, <<1>> \o twos(d - 1) \o <<1>>, FALSE, <<>>), {"bound_first", "bound_last"}, {0}, {1, -1})
       [] kd = "p2" ->
             \* shape = <<I, K>>; lens = slice lengths J_i >= rank (P_i has orthonormal columns)
-            {[op |-> "p2", shape |-> s, rank |-> <<r>>, lens |-> js, hasw |-> hw, bad |-> "none", at |-> 0] :
-                 r \in 1..MaxRank, js \in [1..s[1] -> 1..MaxP2J], hw \in BOOLEAN}
-            \cup {[op |-> "p2", shape |-> s, rank |-> <<2>>, lens |-> [q \in 1..s[1] |-> 2 + (q % 2)], hasw |-> TRUE, bad |-> b, at |-> i] :
-                 b \in {"pcols", "nonorth_double", "nonorth_scaled", "nonorth_skew"}, i \in 1..s[1]}
-            \cup {[op |-> "p2", shape |-> s, rank |-> <<2>>, lens |-> [q \in 1..s[1] |-> 2 + (q % 2)], hasw |-> TRUE, bad |-> b, at |-> 0] :
-                 b \in {"bcols", "ccols", "nproj"}}
+            LET ib == Rec("p2", s, <<2>>, TRUE, [q \in 1..s[1] |-> 2 + (q % 2)]) IN
+            {Rec("p2", s, <<r>>, hw, js) : r \in 1..MaxRank, js \in [1..s[1] -> 1..MaxP2J], hw \in BOOLEAN}
+            \cup Perturb(ib, {"pcols"}, 1..s[1], {1, -1})
+            \cup Perturb(ib, NonOrthNames, 1..s[1], {0})
+            \cup Perturb(ib, {"bcols", "ccols"}, {0}, {1, -1})
+            \cup Perturb(ib, {"nproj"}, {0}, {-1})
 
 ValidCfg(c) ==
     /\ c.op \in Kinds
@@ -290,38 +299,42 @@ ValidCfg(c) ==
 \* shapes of the factor arrays of a configuration (the harness fills them with integers in -2..2)
 FactorShapes(c) ==
     LET s == c.shape  N == Len(s)  r == c.rank  b == c.bad  at == c.at
-        bump(k) == IF b \in {"fcols", "chain"} /\ at = k THEN 1 ELSE 0 IN
+        on(name, cond) == IF b = name /\ cond THEN c.dl ELSE 0
+        bump(k) == on("fcols", at = k) + on("chain", at = k) IN
     CASE c.op = "cp"     -> [k \in 1..N |-> <<s[k], r[1] + bump(k)>>]
       [] c.op = "tucker" -> [k \in 1..(IF b = "nfactors" THEN N - 1 ELSE N) |-> <<s[k], r[k] + bump(k)>>]
       [] c.op \in {"tt", "tr"} ->
-            [k \in 1..N |-> <<r[k] + (IF b = "bound_first" /\ k = 1 THEN 1 ELSE 0), s[k],
-                              r[k + 1] + bump(k) + (IF b \in {"bound_last", "closure"} /\ k = N THEN 1 ELSE 0)>>]
+            [k \in 1..N |-> <<r[k] + on("bound_first", k = 1) + on("closure_first", k = 1), s[k],
+                              r[k + 1] + bump(k) + on("bound_last", k = N) + on("closure", k = N)>>]
       [] c.op = "ttm"    ->
             LET d == N \div 2 IN
-            [k \in 1..d |-> <<r[k] + (IF b = "bound_first" /\ k = 1 THEN 1 ELSE 0), s[k], s[d + k],
-                              r[k + 1] + bump(k) + (IF b = "bound_last" /\ k = d THEN 1 ELSE 0)>>]
+            [k \in 1..d |-> <<r[k] + on("bound_first", k = 1), s[k], s[d + k],
+                              r[k + 1] + bump(k) + on("bound_last", k = d)>>]
       [] c.op = "p2"     -> <<<<s[1], r[1]>>,
-                              <<r[1], r[1] + (IF b = "bcols" THEN 1 ELSE 0)>>,
-                              <<s[2], r[1] + (IF b = "ccols" THEN 1 ELSE 0)>>>>
+                              <<r[1], r[1] + on("bcols", TRUE)>>,
+                              <<s[2], r[1] + on("ccols", TRUE)>>>>
 PShapes(c) ==
     IF c.op # "p2" THEN <<>>
     ELSE LET all == [i \in 1..Len(c.lens) |->
-                       LET x == IF c.bad = "pcols" /\ c.at = i THEN 1 ELSE 0 IN <<c.lens[i] + x, c.rank[1] + x>>]
+                       IF c.bad = "pcols" /\ c.at = i
+                       THEN (IF c.dl = 1 THEN <<c.lens[i] + 1, c.rank[1] + 1>> ELSE <<c.lens[i], c.rank[1] - 1>>)
+                       ELSE <<c.lens[i], c.rank[1]>>]
          IN  IF c.bad = "nproj" THEN Tail(all) ELSE all
 \* the exported configuration: the record above plus the array shapes the harness has to fill
 Expand(c) ==
-    [op |-> c.op, shape |-> c.shape, rank |-> c.rank, hasw |-> c.hasw, bad |-> c.bad, at |-> c.at,
-     lens |-> IF c.op = "p2" THEN c.lens ELSE <<>>,
+    [op |-> c.op, shape |-> c.shape, rank |-> c.rank, hasw |-> c.hasw, bad |-> c.bad, at |-> c.at, dl |-> c.dl,
+     lens |-> c.lens,
      fshapes |-> FactorShapes(c),
-     wlen |-> IF c.hasw THEN c.rank[1] + (IF c.bad = "wlen" THEN 1 ELSE 0) ELSE 0,
+     wlen |-> IF c.hasw THEN c.rank[1] + (IF c.bad = "wlen" THEN c.dl ELSE 0) ELSE 0,
      coreshape |-> IF c.op = "tucker" THEN c.rank ELSE <<>>,
-     pshapes |-> PShapes(c)]
+     pshapes |-> PShapes(c),
+     pden |-> IF c.bad = "nonorth_half" THEN 2 ELSE 1]
 \* which named class a perturbation belongs to ("none": valid, "other": no obligation)
 ClassOfBad(c) ==
     CASE c.bad = "none" -> "none"
       [] c.bad \in {"fcols", "chain", "pcols", "bcols", "ccols"} -> "ranks"
-      [] c.bad \in {"bound_first", "bound_last", "closure"} -> "boundary"
-      [] c.bad \in {"nonorth_double", "nonorth_scaled", "nonorth_skew"} -> "orth"
+      [] c.bad \in {"bound_first", "bound_last", "closure", "closure_first"} -> "boundary"
+      [] c.bad \in NonOrthNames -> "orth"
       [] OTHER -> "other"
 
 \* ---- spec-level generic values (only for the theorems below; the harness draws its own)
@@ -334,20 +347,25 @@ GenPs(c) ==
     [i \in 1..Len(c.lens) |->
         LET J == c.lens[i]  R == c.rank[1]  P == SelP(J, R, i) IN
         IF c.at # i THEN P
-        ELSE CASE c.bad = "pcols" -> SelP(J + 1, R + 1, i)
-               [] c.bad = "nonorth_double" -> Build(<<J, R>>, LAMBDA p : E2(P, p[1], 0))
-               [] c.bad = "nonorth_scaled" -> Build(<<J, R>>, LAMBDA p : 2 * E2(P, p[1], p[2]))
-               [] c.bad = "nonorth_skew"   -> Build(<<J, R>>, LAMBDA p : IF p[2] = 1 THEN E2(P, p[1], 0) + E2(P, p[1], 1) ELSE E2(P, p[1], p[2]))
+        ELSE CASE c.bad = "pcols" -> (IF c.dl = 1 THEN SelP(J + 1, R + 1, i) ELSE SelP(J, R - 1, i))
+               [] c.bad = "nonorth_double"  -> Build(<<J, R>>, LAMBDA p : E2(P, p[1], 0))                       \* Gram = all ones
+               [] c.bad = "nonorth_scaled"  -> Build(<<J, R>>, LAMBDA p : 2 * E2(P, p[1], p[2]))                \* Gram = 4 I
+               [] c.bad = "nonorth_skew"    -> Build(<<J, R>>, LAMBDA p : IF p[2] = 1 THEN E2(P, p[1], 0) + E2(P, p[1], 1) ELSE E2(P, p[1], p[2]))
+               [] c.bad = "nonorth_zero"    -> Build(<<J, R>>, LAMBDA p : IF p[2] = 0 THEN 0 ELSE E2(P, p[1], p[2]))  \* Gram[0,0] = 0
+               [] c.bad = "nonorth_allzero" -> Build(<<J, R>>, LAMBDA p : 0)                                     \* Gram = 0
+               [] c.bad = "nonorth_negdup"  -> Build(<<J, R>>, LAMBDA p : IF p[2] = 1 THEN -E2(P, p[1], 0) ELSE E2(P, p[1], p[2]))  \* Gram[0,1] = -1
+               [] c.bad = "nonorth_half"    -> P                                                                \* over pden = 2: Gram = I/4
                [] OTHER -> P]
 GenIn(c) ==
     LET fsh == FactorShapes(c)
         fs  == [k \in 1..Len(fsh) |-> GenT(fsh[k], k)]
         R   == c.rank[1] IN
-    CASE c.op = "cp"     -> [hasw |-> c.hasw, w |-> IF c.hasw THEN GenW(R + (IF c.bad = "wlen" THEN 1 ELSE 0), 1) ELSE <<>>, fs |-> fs]
+    CASE c.op = "cp"     -> [hasw |-> c.hasw, w |-> IF c.hasw THEN GenW(R + (IF c.bad = "wlen" THEN c.dl ELSE 0), 1) ELSE <<>>, fs |-> fs]
       [] c.op = "tucker" -> [core |-> GenT(c.rank, 9), fs |-> fs]
       [] c.op \in {"tt", "tr", "ttm"} -> [fs |-> fs]
       [] c.op = "p2"     -> [hasw |-> c.hasw, w |-> IF c.hasw THEN GenW(R, 1) ELSE <<>>, fs |-> fs,
-                             ps |-> IF c.bad = "nproj" THEN Tail(GenPs(c)) ELSE GenPs(c)]
+                             ps |-> IF c.bad = "nproj" THEN Tail(GenPs(c)) ELSE GenPs(c),
+                             pden |-> IF c.bad = "nonorth_half" THEN 2 ELSE 1]
 
 \* ---------------------------------------------------------------------------- theorems about the spec
 Rotate(s) == Tail(s) \o <<Head(s)>>
@@ -362,6 +380,12 @@ CfgOK(c) ==
     /\ ValidCfg(c)
     /\ ClassOf(kd, in) = ClassOfBad(c)                  \* the perturbation table and the predicates agree
     /\ (ClassOfBad(c) \in {"ranks", "boundary", "orth"} <=> MustReject(kd, in))
+    \* the non-orthonormal family really contains Gram deviations of both signs
+    /\ (c.bad \in {"nonorth_double", "nonorth_scaled", "nonorth_skew"} =>
+            \E t, u \in 0..(c.rank[1] - 1) : ColDot(in.ps[c.at], t, u) > (IF t = u THEN in.pden * in.pden ELSE 0))
+    /\ (c.bad \in {"nonorth_zero", "nonorth_allzero", "nonorth_negdup", "nonorth_half"} =>
+            /\ \A t, u \in 0..(c.rank[1] - 1) : ColDot(in.ps[c.at], t, u) <= (IF t = u THEN in.pden * in.pden ELSE 0)
+            /\ \E t, u \in 0..(c.rank[1] - 1) : ColDot(in.ps[c.at], t, u) < (IF t = u THEN in.pden * in.pden ELSE 0))
     /\ (c.bad = "none" =>
           LET D == Dense(kd, in) IN
           /\ IsTAny(D)
